@@ -174,7 +174,9 @@ pub fn check_case(c: &Case, rep: &mut Report) {
                         j.clone(),
                     );
                 }
-            } else if c.check_certificate {
+            } else if c.check_certificate && (c.value == 1 || c.value == 2) {
+                // (an allowed selection of plain RDP security - only possible when nothing else was offered - has no
+                // certificate to check)
                 // every certificate here is untrusted (self-signed, empty trust store): nothing may reach the TLS server
                 if s.connect.is_ok() || s.decrypted_bytes > 0 || s.nla_negotiate_seen {
                     rep.violation(
@@ -244,6 +246,15 @@ pub fn make_case(class: u64, idx: u64, seed: u64) -> Case {
             let api: &'static str = if idx % 2 == 0 { "connector" } else { "x224" };
             Case { api, offered: *r.pick(&[1u32, 3, 3, 2, 0]), with_auth: true, check_certificate: r.chance(1, 4), options: r.below(16) as u8, identity: 2, reply_kind: kind, neg_type: t, flags: r.u8(), value, class: "reply-kinds" }
         }
+        5 => {
+            // selections, offered masks, response flag bytes and connector options crossed at random: a guard must hold
+            // whatever the other parameters are
+            let api: &'static str = if r.chance(1, 2) { "connector" } else { "x224" };
+            let offered = if api == "connector" { *r.pick(&[1u32, 3]) } else { *r.pick(&[0u32, 1, 2, 3, 8, 0xB, 4]) };
+            let value = *r.pick(&[0u32, 1, 2, 3, 4, 8, 0x10, 0x100, 0x101, 0x102, 0x8001, 0x8000_0002, 0xffff_ff00, 0xffff_ffff]);
+            let flags = *r.pick(&[0u8, 0x01, 0x02, 0x04, 0x08, 0x10, 0x0f, 0x1f, 0x80, 0xff]);
+            Case { api, offered, with_auth: r.chance(3, 4), check_certificate: r.chance(1, 4), options: r.below(16) as u8, identity: 2, reply_kind: "response", neg_type: 2, flags, value, class: "crossed-parameters" }
+        }
         _ => {
             // certificate checking with every identity, allowed selections
             let sel = 1 + (idx % 2) as u32;
@@ -273,7 +284,7 @@ pub fn run(cfg: &Cfg) -> Report {
         sequence_case(&mut rep);
         total.merge(rep);
     }
-    let plan: Vec<(u64, u64)> = vec![(0, 4096), (1, 16384), (2, 2048), (3, cfg.n(2_000, 400_000)), (4, cfg.n(1600, 160_000))];
+    let plan: Vec<(u64, u64)> = vec![(0, 4096), (1, 16384), (2, 2048), (3, cfg.n(2_000, 400_000)), (4, cfg.n(1600, 160_000)), (5, cfg.n(8_000, 400_000))];
     for (class, n) in plan {
         if !cfg.wants(class) {
             continue;
